@@ -24,6 +24,11 @@ def int_configs(tier):
             out.append(("int", w, enc, False))
             if w % 8 == 0:
                 out.append(("int", w, enc, True))
+    # the same encodings inside a time parameter type with scale and offset (the declared byte order is the encoding's, whatever the type)
+    for w in (16, 32):
+        for enc in ("unsigned", "twosComplement"):
+            for lsb in (False, True):
+                out.append(("int", w, enc + "+time", lsb))
     # integer fields whose encoding lists context calibrators none of which ever applies (and no default): the values stay the integers
     for w in (1, 8, 33, 53, 54, 64, 72, 256):
         for enc in ("unsigned", "twosComplement"):
@@ -40,6 +45,7 @@ def float_configs():
                     continue
                 out.append(("float", w, enc, lsb))
     out += [("float", 32, "MILSTD_1750A", False), ("float", 32, "MILSTD_1750A", True)]
+    out += [("float", 32, "IEEE754+time", False), ("float", 32, "IEEE754+time", True), ("float", 64, "IEEE754+time", True), ("float", 32, "MILSTD_1750A+time", True)]
     # spellings the library accepts with a deprecation warning: the same formats under another name
     out += [("float", 32, "MIL-1750A", False), ("float", 32, "MIL-1750A", True), ("float", 32, "IEEE-754", False), ("float", 64, "IEEE-754", True),
             ("float", 16, "IEEE-754", False)]
@@ -49,11 +55,15 @@ def float_configs():
 def ptype_for(cfg, i):
     fam, w, enc, lsb = cfg
     if fam == "int":
+        if enc.endswith("+time"):
+            return PType(f"T{i}", "AbsoluteTime" if w == 32 else "RelativeTime", IntEnc(w, enc[:-5], lsb), unit="s", scale=0.5, offset=-3.0)
         if enc.endswith("+ctx-never"):
             from mc.spec import Cmp, CtxCal, Poly
             return PType(f"T{i}", "Integer", IntEnc(w, enc[:-10], lsb, ctx_cals=(CtxCal((Cmp("VERSION", "==", "5"),), Poly(((1.0, 0), (2.0, 1)))),
                                                                                   CtxCal((Cmp("PKT_APID", ">", "3000"),), Poly(((0.5, 1),))))))
         return PType(f"T{i}", "Integer", IntEnc(w, enc, lsb))
+    if enc.endswith("+time"):
+        return PType(f"T{i}", "AbsoluteTime", FloatEnc(w, enc[:-5], lsb), unit="s", scale=0.25, offset=2.0)
     return PType(f"T{i}", "Float", FloatEnc(w, enc, lsb))
 
 
